@@ -587,6 +587,11 @@ class PureScheduler:                                    # pylint: disable=r0902
         we return the job that has its index in the middle of the entry jobs.
         Also, we need to return an atomic job, not a scheduler/container.
         """
+        # an empty scheduler stands for itself: _dot_body() gives it
+        # an invisible node that edges can be attached to
+        if not self.jobs:
+            self._dot_anchor = True
+            return self
         # scan once
         number_entries = sum(1 for _ in self.entry_jobs())
         if not number_entries:
@@ -609,6 +614,10 @@ class PureScheduler:                                    # pylint: disable=r0902
         Same as ``_middle_entry_job``, for exit nodes;
         accepts same parameters as ``self.exit_jobs()``
         """
+        # an empty scheduler stands for itself, see _middle_entry_job()
+        if not self.jobs:
+            self._dot_anchor = True
+            return self
         number_exits = sum(1 for _ in self.exit_jobs(**exit_kwds))
         # no need to do this in any case from now on
         exit_kwds['compute_backlinks'] = False
@@ -1348,6 +1357,11 @@ class PureScheduler:                                    # pylint: disable=r0902
 DOT_%28graph_description_language%29
         """
         self._set_sched_ids()
+        # a first pass finds out which empty nested schedulers have edges
+        # attached to them, see _middle_entry_job()
+        for job in self.iterate_jobs(scan_schedulers=True):
+            job._dot_anchor = False
+        self._dot_body(DotStyle())
         return "digraph asynciojobs" + self._dot_body(DotStyle())
 
     def _dot_body(self, dot_style):
@@ -1363,6 +1377,11 @@ DOT_%28graph_description_language%29
         result += "{\n"
         result += "compound=true;\n"
         result += "graph [{}];\n".format(dot_style)
+        # an empty nested scheduler has no node that the edges from and to
+        # its cluster could use: when there are such edges, give it
+        # an invisible one, named after itself
+        if not self.jobs and getattr(self, '_dot_anchor', False):
+            result += '{} [shape="point",style="invis"]\n'.format(self.repr_id())
         for job in self.topological_order():
 
             # regular jobs
